@@ -47,7 +47,7 @@ DESIGN = {  # property -> (module, quick cfg, thorough cfg, description)
     "C09": ("MC_TopologyAware", "MC_TopologyAware.cfg", "MC_TopologyAware.cfg", "TopologyAware on T1: Inv_Quiescent over every allocate/release interleaving (balloons: Balloons.tla Inv_Quiescent in C02's run)"),
     "C02": ("MC_Balloons", "MC_Balloons_quick.cfg", "MC_Balloons.cfg", "Balloons on 6 CPUs in 2 packages, 3 balloon types (dynamic/package-sharing, capped preferNew-like/system-sharing, pre-created), 2 (quick) or 3 (thorough) containers x 3 request sizes"),
     "C05": ("MC_Pipeline", "MC_Pipeline_quick.cfg", "MC_Pipeline.cfg", "Pipeline: 1-2 pods x 2 containers, nondeterministic policy writes and failures, consistent runtime environment"),
-    "C12": ("MC_Pipeline", "MC_Pipeline_quick.cfg", "MC_Pipeline.cfg", "Pipeline (delivery of policy decisions); the opt-out predicates are checked on real traces"),
+    "C12": ("MC_Pipeline", "MC_Pipeline_events_quick.cfg", "MC_Pipeline_events.cfg", "Pipeline with policy events (cold start completion between requests: its change is pending until a draining request); the opt-out predicates are checked on real traces"),
     "C14": ("MC_Pipeline", "MC_Pipeline_C14_quick.cfg", "MC_Pipeline_C14.cfg", "Pipeline with the unconstrained environment (any event, any id, any order)"),
     "C04": ("MC_MemAlloc", "MC_MemAlloc_quick.cfg", "MC_MemAlloc.cfg", "MemAlloc (libmem design) on 3-node layouts"),
     "C11": ("MC_Pipeline", "MC_Pipeline_quick.cfg", "MC_Pipeline.cfg", "Pipeline: Synchronize with arbitrary runtime lists (known containers take the runtime's state, unknown ones are purged) interleaved with all other requests"),
@@ -95,6 +95,10 @@ def gen_histories(ctx, binp, pid):
                 continue
             # valid configuration changes in the middle of histories (C09 compares with the pristine state of the
             # configuration in force: known again once a configuration is applied with nothing alive)
+            if pid in ("C04", "C12") and l2gen.cold_ok_world(w):
+                # cold start histories: most pods start on PMEM only, some of them opted out of memory pinning
+                for _ in range(3 if pid == "C12" else 1):
+                    hs.append(l2gen.lifecycle_history(w, rnd, nops + 15, cold_bias=True))
             rc = l2gen.valid_configs(w, rnd) if pid in ("C01", "C03", "C04", "C05", "C09", "C12") else None
             hs.append(l2gen.lifecycle_history(w, rnd, nops, disorder=disorder, fuzz=0.6 if pid == "C14" else 0.0, reconf_cfgs=rc))
     return hs
@@ -102,7 +106,7 @@ def gen_histories(ctx, binp, pid):
 
 def stats(trace_path):
     st = {"events": 0, "histories": 0, "worlds": set(), "create_ok": 0, "create_failed": 0, "updates_in_replies": 0,
-          "multi_update_replies": 0, "pushed_batches": 0, "update_ok": 0, "update_failed": 0, "stop": 0, "sync": 0, "reconfigure_ok": 0,
+          "multi_update_replies": 0, "pushed_batches": 0, "update_ok": 0, "update_failed": 0, "stop": 0, "sync": 0, "reconfigure_ok": 0, "cold_start_done": 0,
           "excl_grants": 0, "isolated_grants": 0, "reserved_grants": 0, "mixed_grants": 0, "preserve_cpu": 0, "preserve_mem": 0,
           "restarts": 0, "restarts_mid": 0, "sync_gone": 0, "sync_new": 0, "sync_state_changed": 0, "reconfigure_same": 0, "reconfigure_rejected": 0,
           "reconfigure_changed": 0, "twin_compared": 0,
@@ -131,6 +135,8 @@ def stats(trace_path):
             st["update_ok" if ok else "update_failed"] += 1
         if ev == "Stop":
             st["stop"] += 1
+        if ev == "ColdDone" and ok:
+            st["cold_start_done"] += 1
         if ev == "Sync":
             st["sync"] += 1
         if ev == "Reconfigure" and ok:
@@ -198,7 +204,7 @@ NEED = {
     "C04": ["create_ok", "updates_in_replies"],
     "C05": ["create_ok", "create_failed", "updates_in_replies", "multi_update_replies", "pushed_batches", "update_ok", "stop", "sync"],
     "C09": ["quiescent_points", "create_failed", "stop"],
-    "C12": ["preserve_cpu", "preserve_mem", "updates_in_replies"],
+    "C12": ["preserve_cpu", "preserve_mem", "updates_in_replies", "cold_start_done"],
     "C14": ["probes_ok", "create_failed"],
     "C11": ["restarts", "restarts_mid", "sync", "create_ok", "sync_gone", "sync_new", "sync_state_changed"],
     "C13": ["reconfigure_ok", "reconfigure_same", "reconfigure_rejected", "reconfigure_changed", "twin_compared"],
